@@ -18,19 +18,28 @@ def gen_cases(prop, tier, seed, n_quick, n_thorough, families, history_kind='mix
         pool = over.pop('pool', None) or str(pools[(i * 5 + i // len(families)) % len(pools)])
         pspec = workloads.gen_problem(rng, family=fam, prior=over.pop('prior', None), blobs=over.pop('blobs', None),
                                       vectorized=over.pop('vectorized', None))
-        if pool in ('l2', 'b2', 'l4'):
+        if pool in ('l2', 'b2', 'l4', 'l3'):
             pspec['vectorized'] = False      # the likelihood pool is only used for scalar likelihoods
         cfg = workloads.gen_cfg(rng, pspec, pool=pool, networks=over.pop('networks', None),
                                 n_batch=over.pop('n_batch', None), filepath=over.pop('filepath', None))
         cfg.update(over)
-        if i % 12 == 7 and pool == 'none':
+        if pool in ('s2', 'b2') and cfg['periodic'] is None and i % 2 == 0:
+            # sampler pool + periodic parameters: the pool path of NautilusBound.sample handles the phase shift itself
+            cfg['periodic'] = [int(v) for v in rng.choice(pspec['d'], int(rng.integers(1, pspec['d'] + 1)), replace=False)]
+        empty_shells = (i % 6 == 5 and pool == 'none')
+        if empty_shells:
             # the configuration of tests/test_sampler.py::test_sampler_empty_shells: one update per bound, so some
-            # shells stay empty and are removed at the end of exploration
-            cfg.update(n_update=1, n_live=int(rng.choice([10, 15, 25])), n_batch=int(rng.choice([1, 2])), f_live=1e-3,
-                       n_networks=0, n_eff=int(rng.choice([30, 60])), n_shell=1, n_like_new_bound=None,
-                       n_points_min=None)
+            # shells (possibly the first) stay empty and are removed at the end of exploration
+            cfg.update(n_update=1, n_live=int(rng.choice([10, 12, 15])), n_batch=int(rng.choice([1, 2])), f_live=1e-3,
+                       n_networks=0, n_eff=int(rng.choice([30, 60])), n_shell=1, n_like_new_bound=None, enlarge_per_dim=2.0,
+                       n_points_min=None, filepath=True, discard_exploration=bool(i % 4 == 1))
         allow_fault = history_kind == 'mixed' and pool in ('none', 's2')
         hist = drive.gen_history(rng, cfg, kind='mixed' if allow_fault else 'plain')
+        if empty_shells:
+            nb = cfg['n_batch']
+            hist = [op for op in hist if op[0] != 'fault']
+            hist += [['finish'], ['resume'], ['run_more', 3 * nb], ['toggle'], ['run_more', 3 * nb], ['resume'],
+                     ['run_more', 2 * nb], ['toggle']]
         cases.append({'i': i, 'seed': seed, 'prob': pspec, 'cfg': cfg, 'hist': hist})
     return cases
 
